@@ -46,6 +46,7 @@ class Raise:
 EXC_PARENT = {
     'BaseException': None, 'Exception': 'BaseException', 'KeyboardInterrupt': 'BaseException',
     'SystemExit': 'BaseException', 'CancelledError': 'BaseException',
+    'GeneratorExit': 'BaseException',
     'ArithmeticError': 'Exception', 'ZeroDivisionError': 'ArithmeticError',
     'OverflowError': 'ArithmeticError',
     'LookupError': 'Exception', 'KeyError': 'LookupError', 'IndexError': 'LookupError',
@@ -724,6 +725,12 @@ class Engine:
         """Adapt v to static type ty where Python allows it without a run-time test."""
         if v.ty == ty:
             return v
+        r = self._coerce(v, ty)
+        if getattr(v, 'origin', None) is not None and r is not v and isinstance(r, V):
+            r = V(r.ty, r.t, origin=v.origin)
+        return r
+
+    def _coerce(self, v, ty):
         k = ty.kind
         if k == 'tup' and v.ty.kind == 'tup' and len(ty.args) == len(v.t):
             return V(ty, tuple(self.coerce(x, t) for x, t in zip(v.t, ty.args)))
@@ -921,7 +928,7 @@ class Engine:
         if name in mod.consts and isinstance(mod.consts[name], (set, frozenset)):
             return V(Opaque('Set'), z3.IntVal(-7))           # a module-level set object
         if name in mod.consts:
-            return const_to_v(mod.consts[name])
+            return self.shared_const(mod.consts[name], '%s.%s' % (modname, name))
         if name in mod.funcs:
             return V(FN, ('repo', modname, name, None))
         if name in mod.classes:
@@ -1023,6 +1030,16 @@ class Engine:
             return
         yield st, m
 
+    @staticmethod
+    def shared_const(c, where):
+        """A module- or class-level constant; mutable ones (list, dict) carry their origin: the
+        one object is shared by every use, so mutating it in place is a write outside any
+        function's frame."""
+        v = const_to_v(c)
+        if isinstance(c, (list, dict)):
+            v = V(v.ty, v.t, origin=where)
+        return v
+
     def class_attr(self, st, cls, attr, recv, module=None):
         """Method or class constant, searching base classes in the real sources."""
         sch = self.reg.schemas.get(cls)
@@ -1034,7 +1051,7 @@ class Engine:
                     if attr in ci.methods:
                         return V(FN, ('repo', sch.module, sch.name + '.' + attr, recv))
                     if attr in ci.consts:
-                        return const_to_v(ci.consts[attr])
+                        return self.shared_const(ci.consts[attr], '%s.%s' % (sch.name, attr))
                     if attr in ci.classes:
                         return V(MOD, ('ns', ci.classes[attr].consts))
                     if attr in ci.aliases:
@@ -1047,7 +1064,7 @@ class Engine:
             ci = self.src.module(module).classes.get(cls)
             if ci is not None:
                 if attr in ci.consts:
-                    return const_to_v(ci.consts[attr])
+                    return self.shared_const(ci.consts[attr], '%s.%s' % (cls, attr))
                 if attr in ci.methods:
                     return V(FN, ('repo', module, cls + '.' + attr, recv))
         return None
@@ -1876,6 +1893,7 @@ class Engine:
                     continue
                 if vs[0].ty.kind == 'list':
                     done = True
+                    self.no_shared_mutation(s1, vs[0], s.lineno)
                     for s2, r in self.lib.binop(self, s1, ast.Add(), vs[0],
                                                 self.lib.mklist(self, [vs[1]]), s.lineno):
                         if isinstance(r, Raise):
@@ -1939,6 +1957,7 @@ class Engine:
                     yield s1, ('raise', vs)
                     continue
                 o, i = vs
+                self.no_shared_mutation(s1, o, line)
                 for s2, newo in self.lib.setitem(self, s1, o, i, v, line):
                     if isinstance(newo, Raise):
                         yield s2, ('raise', newo)
@@ -1969,11 +1988,23 @@ class Engine:
             if isinstance(vs, Raise):
                 yield s1, ('raise', vs)
                 continue
+            if vs[0].ty.kind in ('list', 'pylist'):
+                self.no_shared_mutation(s1, vs[0], s.lineno)       # list += is in place
             for s2, r in self.lib.binop(self, s1, s.op, vs[0], vs[1], s.lineno):
                 if isinstance(r, Raise):
                     yield s2, ('raise', r)
                 else:
                     yield from self.assign(s.target, r, s2, s.lineno)
+
+    def no_shared_mutation(self, st, v, line):
+        """In-place mutation of a module-/class-level object: a write to a location that is in
+        no function's frame (it is shared by every request and every server instance)."""
+        if getattr(v, 'origin', None) is not None and not st.spec:
+            c = self.cur_contract
+            self.oblige(st, 'frame', 'shared-constant:' + v.origin, z3.BoolVal(False),
+                        props=c.props if c is not None else None, line=line,
+                        note='%s is mutated in place at line %d; the object is shared by all '
+                             'callers' % (v.origin, line))
 
     def ex_Delete(self, s, st):
         if len(s.targets) != 1 or not isinstance(s.targets[0], ast.Subscript):
@@ -1983,6 +2014,7 @@ class Engine:
             if isinstance(vs, Raise):
                 yield s1, ('raise', vs)
                 continue
+            self.no_shared_mutation(s1, vs[0], s.lineno)
             for s2, newo in self.lib.delitem(self, s1, vs[0], vs[1], s.lineno):
                 if isinstance(newo, Raise):
                     yield s2, ('raise', newo)
